@@ -4,6 +4,7 @@ import random
 
 import fsharness as fh
 import fscommon as fc
+import samples
 from framework import coq_property, build_model, build_cli, write_replay
 
 
@@ -69,6 +70,49 @@ def oracle(sc, r):
     return fails
 
 
+
+def all_handlers_linked(ctx, fails):
+    """Every handler on a dirty file with one and with several links: the same bytes come out, seen through every link;
+    the multi-link file keeps its inode; mode (set-id and sticky bits included) and ns mtime are kept."""
+    res = []
+    for n, (data, hs) in samples.per_handler().items():
+        outs = {}
+        for nlink in (1, 2, 3):
+            t = fh.Tree()
+            try:
+                t.add_file("d/" + n, data, mode=0o2755 if nlink == 2 else 0o640, mtime_ns=1_650_000_000_123_456_789)
+                for k in range(1, nlink):
+                    t.link("d/" + n, "d/alias%d-%s" % (k, n) if k == 1 else "other/alias%d.bin" % k)
+                before = fh.snapshot(t.root)
+                rc, out = fh.run_cli(["--handler", hs[0], t.path("d")], epoch=samples.EPOCH, timeout=60)
+                after = fh.snapshot(t.root)
+                label = "%s handler, %d link(s)" % (hs[0], nlink)
+                a, b = after.get("d/" + n), before["d/" + n]
+                if a is None or a["kind"] != "R":
+                    fails.append((None, "linked-file-lost", "%s: d/%s is gone or no regular file" % (label, n)))
+                    continue
+                outs[nlink] = a["data"]
+                if a["data"] == data:
+                    fails.append((None, "linked-not-processed", "%s: the dirty sample was not modified (exit %d)" % (label, rc)))
+                if a["mode"] != b["mode"] or a["mtime_ns"] != b["mtime_ns"] or a["uid"] != b["uid"] or a["gid"] != b["gid"]:
+                    fails.append((None, "linked-metadata", "%s: mode/owner/mtime %o %d:%d %d -> %o %d:%d %d" % (label, b["mode"], b["uid"], b["gid"], b["mtime_ns"], a["mode"], a["uid"], a["gid"], a["mtime_ns"])))
+                if nlink > 1:
+                    if a["ino"] != b["ino"] or a["nlink"] != nlink:
+                        fails.append((None, "linked-inode", "%s: inode %d (%d links) became inode %d (%d links)" % (label, b["ino"], b["nlink"], a["ino"], a["nlink"])))
+                    for rel, e in after.items():
+                        if e["kind"] == "R" and before.get(rel, {}).get("ino") == b["ino"] and e["data"] != a["data"]:
+                            fails.append((None, "linked-views-differ", "%s: %s shows different bytes than d/%s" % (label, rel, n)))
+                leftovers = [r for r in after if os.path.basename(r).startswith(".#.")]
+                if leftovers:
+                    fails.append((None, "linked-temp-left", "%s: %s left behind" % (label, leftovers)))
+            finally:
+                t.remove()
+        if len(set(outs.values())) > 1:
+            fails.append((None, "linked-output-differs", "%s: the bytes written depend on the link count (%s)" % (hs[0], {k: len(v) for k, v in outs.items()})))
+        res.append({"handler": hs[0], "file": n, "bytes_out": {k: len(v) for k, v in outs.items()}})
+    return res
+
+
 def run(ctx):
     rng = random.Random(ctx.seed)
     coq_property(ctx)
@@ -110,20 +154,28 @@ def run(ctx):
                 fails.append((sc, kind, msg))
         ctx.oblige("correspondence[fs]: class, operation trace and final state of %d real runs = model (Helper.run_handler)" % len(runs),
                    not mism, "; ".join("%s: %s" % (sc.label(), why) for sc, why in mism[:4]))
+        lres = all_handlers_linked(ctx, fails)
         seen = set()
         for sc, kind, msg in fails:
             if kind in seen:
                 continue
             seen.add(kind)
+            if sc is None:
+                d = write_replay(ctx, kind, {n: data for n, (data, hs) in samples.per_handler().items()},
+                                 {"failure": msg, "kind": kind, "epoch": samples.EPOCH,
+                                  "how_to_replay": "put the named sample into d/ (mode 2755 or 640, fixed mtime), add hard links as stated, SOURCE_DATE_EPOCH=<epoch> add-determinism --handler <handler> d; compare links, inode, mode, mtime"})
+                ctx.violations.append({"replay": d, "kind": kind, "msg": msg})
+                continue
             d = write_replay(ctx, kind, fc.replay_files(sc), fc.replay_info(sc, failure=msg, kind=kind))
             ctx.violations.append({"replay": d, "kind": kind, "msg": msg})
         nontriv = len(set((r["sc"].handler, r["sc"].tag, r["sc"].mode, r["sc"].nlink, r["sc"].uid, r["sc"].stale) for r in runs
                           if fc.class_of_summary(r["summary"]) in ("Replaced", "Rewritten")))
         ctx.coverage.update({
-            "evaluations": len(runs), "distinct_nontrivial": nontriv,
+            "evaluations": len(runs) + 3 * len(lres), "distinct_nontrivial": nontriv + 3 * len(lres), "all_handlers_by_link_count": lres,
             "rule": "real CLI runs under strace on scratch trees: dirty gzip/ar files x modes (set-id, sticky, 0, 07777; thorough: 300 random modes) x owners 0:0/1234:5678 "
                     "x ns mtimes x link counts 1..3 (links inside and outside the directory) x stale temp file, plus clean/malformed files; compared with the model's "
-                    "class, abstract operation trace and final observations, and judged by the property oracle; non-trivial = file was replaced or rewritten; distinct by scenario parameters",
+                    "class, abstract operation trace and final observations, and judged by the property oracle; every handler (zip, jar, javadoc, pyc included) on its dirty sample with 1, 2 and 3 links "
+                    "(same bytes whatever the link count, same inode and all links updated when linked, mode incl. set-gid and ns mtime kept); non-trivial = file was replaced or rewritten; distinct by scenario parameters",
             "samples": [{"scenario": r["sc"].label(), "class": fc.class_of_summary(r["summary"]), "trace": fh.collapse(r["ops"], r["t"].path("d/" + r["sc"].name))} for r in runs[:3]],
             "traces_validated_against_impl": len(runs), "correspondence_mismatches": len(mism), "oracle_failures": len(fails),
         })
